@@ -187,7 +187,14 @@ def malformed(ctx, classes, n_schema, gen, per_class, base_cases=None):
                     except Exception as e:  # noqa
                         ok, why = False, f"returned value cannot be re-encoded: {cc.err_name(e)}"
             if dt > 0.25 and dt > 200 * max(t_valid, 1e-4) * (1 + len(data) / max(len(base), 1)):
-                ok, why = False, f"decode took {dt:.3f}s (valid encoding: {t_valid:.5f}s)"
+                # re-measure (the machine may be loaded): only a reproducibly slow decode counts
+                best = dt
+                for _ in range(3):
+                    t0 = time.perf_counter()
+                    cc.impl_decode(cls, data)
+                    best = min(best, time.perf_counter() - t0)
+                if best > 0.25 and best > 200 * max(t_valid, 1e-4) * (1 + len(data) / max(len(base), 1)):
+                    ok, why = False, f"decode took {best:.3f}s at best of 4 (valid encoding: {t_valid:.5f}s)"
             case["c10_ok"] = ok
             case["why"] = why
             cases.append(case)
